@@ -385,6 +385,11 @@ class C19(PropBase):
         both("copy", lambda: _fields(copy.copy(s1)), lambda: _fields(copy.copy(t1)))
         both("copy-class", lambda: type(copy.copy(s1)) is S, lambda: type(copy.copy(t1)) is T)
         both("deepcopy", lambda: _fields(copy.deepcopy(s1)), lambda: _fields(copy.deepcopy(t1)))
+        if hasattr(s1, "__dict__"):
+            # an instance dictionary that holds something (a cached property, an attribute set after
+            # construction): the copy gets a dictionary of its own, as a dataclass copy does
+            both("copy-owns-its-dict", lambda: _copy_dict_probe(s1), lambda: _copy_dict_probe(t1))
+            both("deepcopy-owns-its-dict", lambda: _copy_dict_probe(s1, copy.deepcopy), lambda: _copy_dict_probe(t1, copy.deepcopy))
         name = T.__qualname__
         if "<locals>" not in name:
             for proto in (2, pickle.HIGHEST_PROTOCOL):
@@ -435,6 +440,17 @@ class C19(PropBase):
             if r != ("ok", True):
                 diffs.append({"aspect": "weakref", "slotted": _r(r), "twin": "weak reference requested"})
         return diffs
+
+
+def _copy_dict_probe(obj, how=copy.copy):
+    object.__setattr__(obj, "_vw_cached", [1])
+    try:
+        c = how(obj)
+        vars(c)["_vw_more"] = 2
+        return [vars(c) is vars(obj), "_vw_more" in vars(obj), getattr(c, "_vw_cached", None)]
+    finally:
+        vars(obj).pop("_vw_cached", None)
+        vars(obj).pop("_vw_more", None)
 
 
 def _frozen_del(obj, name):
